@@ -435,6 +435,15 @@ def check_loader_semantics(db, chk, rule_assoc: str, rule_reenc: str) -> None:
                 return None
             if name.endswith("symbol_table.get_sym_id_map"):
                 return T.P(f"GMAP@{state['ver']}")
+            # the same accessors reached inside an inlined method of the global table (e.g. update_encoded_df): decided by the receiver
+            if name.endswith((".get_sym_id_map", ".get_sym_index", ".add_symbols")) and isinstance(getattr(node, "func", None), ast.Attribute):
+                recv = I.eval(node.func.value)
+                if isinstance(recv, Obj) and recv.name == "GTABLE":
+                    if name.endswith(".add_symbols"):
+                        state["ver"] += 1
+                        state["adds"].append(to_term(pos[0]) if pos else None)
+                        return None
+                    return T.P(f"GMAP@{state['ver']}")
             return NotImplemented
         I = Interp(db, call_hook=hook)
 
@@ -487,7 +496,7 @@ def check_loader_semantics(db, chk, rule_assoc: str, rule_reenc: str) -> None:
                accepted=[f"LTAB:{p}" for _, p in ranks_paths])
 
     def self_obj(files):
-        return Obj("self", cls=(tm, "Trace"), attrs={"trace_files": dict(files), "traces": {}, "meta_data": {}, "symbol_table": Obj("GTABLE"), "parser_config": Obj("cfg")})
+        return Obj("self", cls=(tm, "Trace"), attrs={"trace_files": dict(files), "traces": {}, "meta_data": {}, "symbol_table": Obj("GTABLE", cls=(db.mod("hta.common.trace_symbol_table"), "TraceSymbolTable")), "parser_config": Obj("cfg")})
     for mp_ in (False, True):
         scenario(f"{TM}:Trace.parse_multiple_ranks", lambda mp_=mp_: {"self": self_obj({R0: "f0", R1: "f1"}), "ranks": [R0, R1], "use_multiprocessing": mp_, "use_memory_profiling": False},
                  [(R0, "f0"), (R1, "f1")], f"parse_multiple_ranks({'pool' if mp_ else 'sequential'})")
